@@ -213,6 +213,12 @@ def is_known(payload, known):
 def replay(payload):
     """True iff the stored case still fails on the current implementation (or against the model)"""
     case = payload.get("case")
+    if payload.get("kind") == "implementation-raised" and case:
+        try:
+            S.rebuild(case)
+            return False
+        except Exception:
+            return True
     if payload.get("kind", "").startswith("C04-two-orders"):
         return two_orders(payload["case_seed"], payload["cls"]) is not None
     if case:
